@@ -416,6 +416,72 @@ func c02Sig(c c02Case) string {
 	return sb.String()
 }
 
+// runC02DuringProbe: messages submitted on the session's current transport (polling) while an
+// upgrade candidate is being probed, then on the new transport once the upgrade is complete.
+func runC02DuringProbe(rev int, r *rep.Report) (key, msg string) {
+	rig.Bubble(r.T(), func() {
+		so := &config.ServerOptions{}
+		so.SetAllowEIO3(true)
+		so.SetTransports(types.NewSet("polling", "websocket"))
+		so.SetPingInterval(20 * time.Second)
+		w := rig.NewWorld(rig.Options{Server: so})
+		defer w.Finish()
+		cl, err := w.Connect(rig.ClientCfg{Rev: rev, Transport: "polling", NoAutoPong: true})
+		rig.Wait()
+		sock := w.Socket(0)
+		if err != nil || sock == nil {
+			key, msg = "c02-handshake-failed", fmt.Sprint(err)
+			return
+		}
+		sid := sock.Id()
+		cl.StartReader()
+		if res := cl.Post(refcodec.Text(refcodec.Message, "before")); res.Status != 200 {
+			key, msg = "c02-post-refused", fmt.Sprintf("POST before the upgrade answered %d", res.Status)
+			return
+		}
+		cand := w.Candidate(sid, rev)
+		if e := cand.DialCandidateWS(); e != nil {
+			key, msg = "c02-handshake-failed", e.Error()
+			return
+		}
+		time.Sleep(time.Millisecond)
+		cand.WSWriteRaw(false, []byte("2probe"))
+		if _, d, e := cand.WS.ReadMessage(); e != nil || string(d) != "3probe" {
+			r.Inconclusive(fmt.Sprintf("during-probe: no probe pong (%q %v)", d, e))
+			return
+		}
+		if !sock.Upgrading() {
+			r.Inconclusive("during-probe: session not marked upgrading after the probe")
+			return
+		}
+		// the current transport is still polling: its data requests must be accepted and delivered
+		for i := 0; i < 2; i++ {
+			res := cl.Post(refcodec.Text(refcodec.Message, fmt.Sprintf("during-probe-%d", i)))
+			if res.Err != nil || res.Status != 200 || string(res.Body) != "ok" {
+				key, msg = "c02-post-refused", fmt.Sprintf("a data request on the session's current transport (polling) while an upgrade candidate is being probed was answered %d %q (err %v)", res.Status, res.Body, res.Err)
+				return
+			}
+		}
+		cl.Pause()
+		cand.WSWriteRaw(false, []byte("5"))
+		time.Sleep(time.Millisecond)
+		rig.Wait()
+		cand.WSWriteRaw(false, []byte("4after-upgrade"))
+		time.Sleep(10 * time.Millisecond)
+		rig.Wait()
+		var got []string
+		for _, e := range w.Tap.Of(sid, "message") {
+			got = append(got, e.Str)
+		}
+		want := "before,during-probe-0,during-probe-1,after-upgrade"
+		if strings.Join(got, ",") != want {
+			key, msg = "c02-message-not-delivered", fmt.Sprintf("messages submitted before / during the probe of an upgrade candidate (on polling) / after the upgrade (on websocket): delivered [%s], want [%s]; session %s, upgraded %v", strings.Join(got, ","), want, sock.ReadyState(), sock.Upgraded())
+		}
+		cl.Stop()
+	})
+	return
+}
+
 func TestC02(t *testing.T) {
 	r := rep.New(t, "C02")
 	defer r.Flush()
@@ -424,6 +490,17 @@ func TestC02(t *testing.T) {
 	r.Assume("the v3 binary (XHR2) form is only used for payloads that contain a binary packet, as conformant clients do; known parser-dependency defects are exercised in dedicated lanes")
 	if r.Lane == 1%r.Lanes {
 		quicMessages(r, 2, r.N(24, 960))
+	}
+	if r.Lane == 2%r.Lanes {
+		for k := 0; k < r.N(8, 400); k++ {
+			rev := 4 - k%2
+			key, msg := runC02DuringProbe(rev, r)
+			r.Case(fmt.Sprintf("during-probe/v%d", rev), true)
+			r.Obs("messages_during_upgrade_probe_cases", 1)
+			if key != "" {
+				r.Violation(key, msg, map[string]any{"lane": "data requests while an upgrade candidate is being probed", "rev": rev})
+			}
+		}
 	}
 	n := r.N(2400, 240000)
 	for i := 0; i < n; i++ {
